@@ -15,6 +15,9 @@ TReset == IsEvent("reset") /\ live' = {} /\ tm' = [i \in IDS |-> <<0, 0>>]
 IsMin(i) == i \in live /\ \A j \in live : Leq(tm[i], tm[j])
 TAdd == /\ IsEvent("t_add") /\ Ev.id \notin live /\ Ev.ok
         /\ live' = live \cup {Ev.id} /\ tm' = [tm EXCEPT ![Ev.id] = <<Ev.s, Ev.u>>]
+TAddFail == IsEvent("t_add") /\ ~Ev.ok /\ Ev.inj > 0 /\ UNCHANGED <<live, tm>>       \* C14: failure changes nothing
+TInit == IsEvent("t_init") /\ live = {} /\ (Ev.ok \/ Ev.inj > 0) /\ UNCHANGED <<live, tm>>
+TEndAll == IsEvent("end") /\ Ev.live = 0 /\ UNCHANGED <<live, tm>>
 TDelete == IsEvent("t_delete") /\ Ev.id \in live /\ live' = live \ {Ev.id} /\ UNCHANGED tm
 TIncrease == /\ IsEvent("t_increase") /\ Ev.id \in live /\ Leq(tm[Ev.id], <<Ev.s, Ev.u>>)
              /\ tm' = [tm EXCEPT ![Ev.id] = <<Ev.s, Ev.u>>] /\ UNCHANGED live
@@ -30,6 +33,6 @@ TGetPtr == /\ IsEvent("t_getptr")
               ELSE /\ IsMin(Ev.id) /\ Leq(tm[Ev.id], <<Ev.s, Ev.u>>)
                    /\ live' = live \ {Ev.id} /\ UNCHANGED tm
 TEnd == IsEvent("t_end") /\ live = {} /\ UNCHANGED <<live, tm>>
-Next == TReset \/ TAdd \/ TDelete \/ TIncrease \/ TGetMin \/ TGetPtr \/ TEnd
+Next == TReset \/ TAddFail \/ TInit \/ TEndAll \/ TAdd \/ TDelete \/ TIncrease \/ TGetMin \/ TGetPtr \/ TEnd
 Spec == Init /\ [][Next]_vars
 =============================================================================
